@@ -835,6 +835,10 @@ func main() {
 	// the pauses between retries are irrelevant to the property; the number of steps is what the model mirrors
 	retry.DefaultRetry.Duration = time.Microsecond
 
+	if err := buildServed(); err != nil {
+		infra("cannot build the control plane's REST storage for ratelimitconditions: %v", err)
+	}
+
 	rig.Main("C19", func(c *rig.Ctx) {
 		c.SetRule("a case = store configuration (shard, shardCount 1-3, write-through|periodic) x initial API contents x 1-12 operations (save/delete/deleteUpstream/flush/stop/load/restart on 4 upstreams x 3 names, colliding; a flush/stop may carry a concurrent call of another goroutine injected into its window) x a fault script (ok|notFound|conflict|alreadyExists|transient|lost per API call) x a crash point x the shard of the next holder; run on the real NewK8sCacheStore over the fake clientset; distinct = distinct canonical case; non-trivial = a fault was consumed, or the process crashed inside an operation, or a restart happened, or a concurrent call was injected")
 		if retry.DefaultRetry.Steps < 1 {
